@@ -370,94 +370,7 @@ func c05R3(p *Prog, r *Report) {
 			r.Bad(key+"/has field settings", p.PosStr(fi.Decl.Pos()), "does not decide on Method.RawFieldSettings: flag-style field settings (matchIgnoreCase, ignoreMissing, ignoreUnexported, update:ignoreZeroValueField) on a bypassed or non-struct method would be dropped silently")
 		}
 	}
-	// parseMethodLine records
-	if fi := p.Func("config.parseMethodLine"); fi != nil {
-		info := fi.Pkg.TypesInfo
-		si := cmdSwitch(fi)
-		okAppend := false
-		ast.Inspect(fi.Decl, func(n ast.Node) bool {
-			ifs, isIf := n.(*ast.IfStmt)
-			if !isIf {
-				return true
-			}
-			if id, isID := ast.Unparen(ifs.Cond).(*ast.Ident); isID && id.Name == "fieldSetting" {
-				ast.Inspect(ifs.Body, func(m ast.Node) bool {
-					if as, isAs := m.(*ast.AssignStmt); isAs && len(as.Lhs) == 1 && isFieldSel(info, as.Lhs[0], modPath+"/config", "Method", "RawFieldSettings") {
-						okAppend = true
-					}
-					return true
-				})
-			}
-			return true
-		})
-		// the if must be outside the switch (applies to all arms) and no arm returns success before it
-		if okAppend {
-			r.OK("config.parseMethodLine/record", p.PosStr(fi.Decl.Pos()), "if fieldSetting { RawFieldSettings = append(…, line) } after the switch")
-		} else {
-			r.Bad("config.parseMethodLine/record", p.PosStr(fi.Decl.Pos()), "field settings are no longer recorded in RawFieldSettings")
-		}
-		if si != nil {
-			for _, k := range []string{"map", "ignore", "autoMap"} {
-				cc := si.labels[k]
-				site := fmt.Sprintf("config.parseMethodLine/case %q is a field setting", k)
-				set := false
-				if cc != nil {
-					ast.Inspect(cc, func(m ast.Node) bool {
-						if as, isAs := m.(*ast.AssignStmt); isAs && len(as.Lhs) == 1 && exprString(as.Lhs[0]) == "fieldSetting" && exprString(as.Rhs[0]) == "true" {
-							set = true
-						}
-						return true
-					})
-				}
-				if set {
-					r.OK(site, p.PosStr(cc.Pos()), "fieldSetting = true")
-				} else {
-					r.Bad(site, "", "the setting is not classified as field setting: overlap/validation would not see it")
-				}
-			}
-			// default arm takes fieldSetting from parseCommon
-			okDef := false
-			if si.def != nil {
-				ast.Inspect(si.def, func(m ast.Node) bool {
-					if as, isAs := m.(*ast.AssignStmt); isAs && len(as.Lhs) == 2 && exprString(as.Lhs[0]) == "fieldSetting" && callTo(info, as.Rhs[0], modPath+"/config", "", "parseCommon") != nil {
-						okDef = true
-					}
-					return true
-				})
-			}
-			if okDef {
-				r.OK("config.parseMethodLine/default takes fieldSetting from parseCommon", p.PosStr(si.def.Pos()), "fieldSetting, err = parseCommon(…)")
-			} else {
-				r.Bad("config.parseMethodLine/default takes fieldSetting from parseCommon", p.PosStr(fi.Decl.Pos()), "the field-setting classification of inheritable settings is discarded")
-			}
-		}
-	} else {
-		r.Unresolved("config.parseMethodLine")
-	}
-	if fi := p.Func("config.parseCommon"); fi != nil {
-		si := cmdSwitch(fi)
-		for _, k := range []string{"ignoreUnexported", "update:ignoreZeroValueField", "matchIgnoreCase", "ignoreMissing"} {
-			site := fmt.Sprintf("config.parseCommon/case %q is a field setting", k)
-			set := false
-			var cc *ast.CaseClause
-			if si != nil {
-				cc = si.labels[k]
-			}
-			if cc != nil {
-				ast.Inspect(cc, func(m ast.Node) bool {
-					if as, isAs := m.(*ast.AssignStmt); isAs && len(as.Lhs) == 1 && exprString(as.Lhs[0]) == "fieldSetting" && exprString(as.Rhs[0]) == "true" {
-						set = true
-					}
-					return true
-				})
-			}
-			if set {
-				r.OK(site, p.PosStr(cc.Pos()), "fieldSetting = true")
-			} else {
-				r.Bad(site, "", "the setting is not classified as field setting any more")
-			}
-		}
-	}
+	fieldSettingRecordedRule(p, r)
 }
 
 func c05R5(p *Prog, r *Report) {
